@@ -11,7 +11,7 @@ From RV Require Import Prelude.
 From Tensor Require Import Overlap.
 From LayoutOps Require Import ArrayModel LayoutOps ModelC09 Array_proofs Denote_proofs
   SliceRange_proofs Gather_proofs Perm_proofs Bcast_proofs Reshape_proofs Copy_proofs
-  Defined_proofs Chain_proofs.
+  Defined_proofs Clip_proofs Chain_proofs.
 Open Scope N_scope.
 
 (* ================================================================ SliceRange *)
@@ -61,6 +61,13 @@ Proof. exact slice_wrap_eq. Qed.
 Theorem C09_slice_copy_is_numpy : forall (A : Type) (s : list A) v items t t',
   denote s v = Some t -> slice_copy false s v items = Ok t' -> ref_slice_numpy t items = Some t'.
 Proof. exact @slice_copy_sound. Qed.
+
+(* ... and it panics only where numpy's t[items] is undefined (zero step, index out of range,
+   more items than axes) *)
+Theorem C09_slice_copy_error : forall (A : Type) (s : list A) v items t e,
+  denote s v = Some t -> dims_small (v_dims v) -> slice_copy false s v items = Err e ->
+  ref_slice_numpy t items = None.
+Proof. exact @slice_copy_error. Qed.
 
 (* ================================================================ one axis *)
 Theorem C09_index_axis_denotes : forall (A : Type) (s : list A) v axis i v' t,
@@ -158,18 +165,26 @@ Theorem C09_reshaped_for_view_error : forall (A : Type) (s : list A) v shape e t
 Proof. exact @reshaped_for_view_error. Qed.
 
 (* ================================================================ the model used by the check *)
-(* For every operation of the correspondence model except clip_dim: if the model (exact
+(* clip_dim on an owned tensor with this layout (storage window moved to the front and
+   truncated) is the reference slice along that axis *)
+Theorem C09_clip_dim_denotes : forall st dm a b st' t,
+  mdenote st = Some t -> apply_op false (OClipDim dm a b) st = Ok st' ->
+  mdenote st' = ref_slice_axis t dm a b.
+Proof. exact clip_dim_denotes. Qed.
+
+(* For EVERY operation of the correspondence model (all 17 kinds): if the model (exact
    arithmetic) succeeds on a state that denotes [t], the reference operation is defined on
    [t] and the new state denotes its result. *)
 Theorem C09_op_correct : forall o st st' t,
-  proved_op o = true -> mdenote st = Some t -> apply_op false o st = Ok st' ->
+  mdenote st = Some t -> apply_op false o st = Ok st' ->
   exists t', ref_apply o t (result_shape st') = Some t' /\ mdenote st' = Some t'.
 Proof. exact op_correct. Qed.
 
-(* ... and if it reports an error or panics, the reference operation is undefined (or the
-   contiguity precondition of the view-only reshape fails).  Not for slice_copy, clip_dim. *)
+(* ... and if it reports an error or panics, the reference operation is undefined, or the
+   contiguity precondition of the view-only reshape fails, or (clip_dim) the harness could
+   not build an owned tensor with this layout *)
 Theorem C09_op_error_means_undefined : forall o st e t,
-  error_proved_op o = true -> dims_small (v_dims (m_view st)) ->
+  dims_small (v_dims (m_view st)) ->
   mdenote st = Some t -> apply_op false o st = Err e ->
   contract_error o e = true \/ ref_apply o t (t_shape t) = None.
 Proof. exact op_error_means_undefined. Qed.
@@ -177,7 +192,7 @@ Proof. exact op_error_means_undefined. Qed.
 (* chains: any sequence of operations on any source view denotes the sequence of reference
    operations on the source tensor *)
 Theorem C09_chain_matches_reference : forall ops st t states,
-  forallb proved_op ops = true -> mdenote st = Some t ->
+  mdenote st = Some t ->
   run_chain false ops st = Ok states ->
   exists t', ref_chain ops (map result_shape states) t = Some t' /\ mdenote (last states st) = Some t'.
 Proof. exact chain_matches_reference. Qed.
@@ -185,7 +200,7 @@ Proof. exact chain_matches_reference. Qed.
 (* never lossy: the result has exactly the reference's elements -- in particular as many as
    its shape announces *)
 Theorem C09_never_lossy : forall o st st' t,
-  proved_op o = true -> mdenote st = Some t -> apply_op false o st = Ok st' ->
+  mdenote st = Some t -> apply_op false o st = Ok st' ->
   exists t', mdenote st' = Some t' /\ ref_apply o t (result_shape st') = Some t'
              /\ lenN (t_elems t') = prodN (t_shape t') /\ t_shape t' = result_shape st'.
 Proof. exact never_lossy. Qed.
